@@ -198,8 +198,10 @@ impl QueryHandle<'_> {
         inner.get(&self.query_id).map(QueryStatus::from)
     }
 
-    pub fn remove_query_on_drop(&self) -> RemoveQuery<'_> {
-        RemoveQuery::new(self.query_id, self.queries)
+    /// Returns a guard that, when dropped, removes this query provided it is still in the
+    /// `expected` status, i.e. still the query that the caller registered.
+    pub fn remove_query_on_drop(&self, expected: QueryStatus) -> RemoveQuery<'_> {
+        RemoveQuery::new(self.query_id, self.queries, expected)
     }
 }
 
@@ -220,12 +222,20 @@ pub struct RemoveQuery<'a> {
 struct RemoveQueryInner<'a> {
     query_id: QueryId,
     queries: &'a RunningQueries,
+    /// The status the owner of this guard left the query in. While the owner is suspended
+    /// the query can be killed and another one registered under the same id; that one must
+    /// not be removed by this guard.
+    expected: QueryStatus,
 }
 
 impl<'a> RemoveQuery<'a> {
-    pub fn new(query_id: QueryId, queries: &'a RunningQueries) -> Self {
+    pub fn new(query_id: QueryId, queries: &'a RunningQueries, expected: QueryStatus) -> Self {
         Self {
-            inner: Some(RemoveQueryInner { query_id, queries }),
+            inner: Some(RemoveQueryInner {
+                query_id,
+                queries,
+                expected,
+            }),
         }
     }
 
@@ -237,18 +247,23 @@ impl<'a> RemoveQuery<'a> {
 impl Drop for RemoveQuery<'_> {
     fn drop(&mut self) {
         if let Some(inner) = &self.inner {
-            if inner
-                .queries
-                .inner
-                .lock()
-                .unwrap()
-                .remove_entry(&inner.query_id)
-                .is_none()
-            {
-                tracing::warn!(
-                    "{q} query is not registered, but attempted to terminate",
-                    q = inner.query_id
-                );
+            let mut queries = inner.queries.inner.lock().unwrap();
+            match queries.get(&inner.query_id).map(QueryStatus::from) {
+                Some(status) if status == inner.expected => {
+                    queries.remove(&inner.query_id);
+                }
+                Some(status) => {
+                    tracing::warn!(
+                        "{q} query is now in {status:?} state, not terminating it",
+                        q = inner.query_id
+                    );
+                }
+                None => {
+                    tracing::warn!(
+                        "{q} query is not registered, but attempted to terminate",
+                        q = inner.query_id
+                    );
+                }
             }
         }
     }
